@@ -68,6 +68,11 @@ impl Workspace {
         let main = self.ensure_main()?;
         let ast = parsing::parse_string(main)?;
         self.ast = Some(ast);
+
+        // what was derived from the previous tree does not describe this one
+        self.analisis = None;
+        self.tir.clear();
+
         Ok(())
     }
 
